@@ -218,6 +218,26 @@ def c04_boundary(state):
     return on_boundary
 
 
+def c05_boundary(state):
+    """at every boundary the shipped stop condition, asked about this tree, answers what its definition says on
+    this tree's state (it may be one object serving several trees of the process)"""
+
+    def on_boundary(run, tree):
+        from .props.c19 import gsc_oracle
+
+        want = gsc_oracle(run.spec, tree)
+        if want is None:
+            return
+        cond = getattr(getattr(run, "inner_gsc", None), "inner", None)
+        if cond is None:
+            return
+        got = bool(cond(tree))
+        if got != bool(want) and not state["viol"]:
+            state["viol"].append(V("C05/stop-condition-not-its-definition", f"boundary {tree.metaepoch_count}: {run.spec['gsc']['kind']} answers {got} about this tree, its definition on the tree's state gives {bool(want)} ({tree.n_evaluations} evaluations, {sum(1 for _ in tree.all_demes)} demes)"))
+
+    return on_boundary
+
+
 # ------------------------------------------------------------------------------------- C05
 def c05(run):
     out = []
@@ -426,7 +446,7 @@ def c07(run):
     # seed provenance
     news = [e for e in run.ev if e[0] == "NEW" and e[3] is not None]
     for e in news:
-        _, did, lvl, par, started, cls, seed, pop, nev = e
+        _, did, lvl, par, started, cls, seed, pop, nev = e[:9]
         rnd = next((r for r in run.rounds if r["metaepoch"] == started), None)
         if rnd is None:
             out.append(V("C07/no-round", f"deme {did} created outside a sprouting round"))
@@ -569,6 +589,13 @@ def c09(run):
                     continue
                 if abs(c["nbc_mean"] - m) > 1e-9 * max(abs(m), 1e-300):
                     out.append(V("C09/nbc-mean-not-of-the-parents-population", f"round of metaepoch {r['metaepoch']}: candidates of deme {did} carry nbc_mean_distance {c['nbc_mean']}, the mean nearest-better distance of its current population is {m}"))
+        # the demes created by this round stand exactly where the accepted seeds are
+        accepted = {par: [tuple(x) for x, _ in seeds] for par, seeds in r["seeds"].items()}
+        for e in run.ev:
+            if e[0] == "NEW" and e[3] is not None and e[4] == r["metaepoch"] and e[6] is not None:
+                at = e[9] if len(e) > 9 and e[9] is not None else e[6]  # the seed the new deme actually holds
+                if tuple(at[0]) not in accepted.get(e[3], []):
+                    out.append(V("C09/sprouted-at-a-different-point-than-accepted", f"round of metaepoch {r['metaepoch']}: deme {e[1]} was sprouted from {list(at[0])}, which is none of the seeds the mechanism accepted for its parent {e[3]} ({accepted.get(e[3], [])[:3]})"))
         for par, seeds in r["seeds"].items():
             tl = pre[par]["level"] + 1
             for kind, thr, ordn, only_active in checks:
